@@ -44,6 +44,39 @@ def _has_q(t, seen):
     return any(_has_q(c, seen) for c in t.children())
 
 
+_csym = {}
+
+
+def const_syms(t):
+    """names of the uninterpreted constants of a term (cached; the term is kept alive)"""
+    k = t.get_id()
+    r = _csym.get(k)
+    if r is not None:
+        return r[0]
+    out = set()
+    seen = set()
+    stack = [t]
+    while stack:
+        x = stack.pop()
+        i = x.get_id()
+        if i in seen:
+            continue
+        seen.add(i)
+        if z3.is_quantifier(x):
+            stack.append(x.body())
+        elif z3.is_app(x):
+            if x.num_args() == 0:
+                if x.decl().kind() == z3.Z3_OP_UNINTERPRETED:
+                    out.add(x.decl().name())
+            else:
+                stack.extend(x.children())
+    if len(_csym) > 200000:
+        _csym.clear()
+    out = frozenset(out)
+    _csym[k] = (out, t)
+    return out
+
+
 _wk = {}
 
 
@@ -168,6 +201,20 @@ class Ctx:
             else:
                 terms.append(t)
         if extra is not None:
+            # only the conjuncts in the cone of influence of the condition matter: the rest of the path
+            # condition shares no symbol with it and is satisfiable (the path was reached)
+            syms = set(const_syms(extra))
+            info = [(t, const_syms(t)) for t in terms]
+            chosen = [False] * len(info)
+            changed = True
+            while changed:
+                changed = False
+                for i, (t, ss) in enumerate(info):
+                    if not chosen[i] and ss & syms:
+                        chosen[i] = True
+                        syms |= ss
+                        changed = True
+            terms = [t for (t, _), c in zip(info, chosen) if c]
             terms.append(extra)
         r = self.cache.check(terms)
         return r != 'unsat'
